@@ -109,6 +109,9 @@ def main(argv):
         return digests_main(argv[1], [int(x) for x in argv[2:]])
     prop, tier = argv[0], argv[1]
     opts = dict(TIERS[tier])
+    if prop == "C20":
+        opts["wall"] = 240
+        opts["selftest"] = 3 if tier == "quick" else 12
     i = 2
     nseeds = None
     while i < len(argv):
@@ -162,6 +165,7 @@ def main(argv):
     # ---- 2. the seeded search
     results = {}
     budget = opts["budget"]
+    t_search = time.time()
     batch = 0
     n_total = nseeds
     cursor = 0
@@ -171,10 +175,10 @@ def main(argv):
             if not todo:
                 break
         else:
-            if time.time() - t0 > budget:
+            if time.time() - t_search > budget:
                 break
             todo = derive_seeds(base, cursor + workers * 8)[cursor:]
-        left = max(5.0, budget - (time.time() - t0)) if n_total is None else None
+        left = max(5.0, budget - (time.time() - t_search)) if n_total is None else None
         out = runner.run_parallel(run_seed, todo, workers=workers, wall=opts["wall"], budget_s=left)
         for seed, o in out:
             results[seed] = o
@@ -335,10 +339,28 @@ def coverage(prop, good, verdicts, results, wall, harness_errors, known_hits, ne
     if not samples and good:
         s = sorted(good)[0]
         samples.append({"seed": s, "steps": [compact(x) for x in good[s]["steps"]]})
+    if not samples:
+        samples.append({"note": "no run completed"})
     n = len(results)
+    case_keys = set()
+    ncases = 0
+    for r in good.values():
+        if "case_keys" in r:
+            case_keys.update(r["case_keys"])
+            ncases += r.get("cases", 0)
+    if prop == "C20":
+        samples = []
+        for s in sorted(good):
+            r = good[s]
+            if r.get("sample_case"):
+                samples.append({"seed": s, "case": r["sample_case"], "steps": [compact(x) for x in r["steps"]]})
+            if len(samples) >= 2:
+                break
+        if not samples:
+            samples.append({"note": "no case completed"})
     cov = {
-        "evaluations": n,
-        "distinct_nontrivial": len(nontrivial_keys),
+        "evaluations": ncases if prop == "C20" else n,
+        "distinct_nontrivial": len(case_keys) if prop == "C20" else len(nontrivial_keys),
         "rule": RULES.get(prop, ""),
         "samples": samples,
         "runs_per_hour": int(n / max(wall, 1e-6) * 3600),
@@ -357,6 +379,11 @@ def coverage(prop, good, verdicts, results, wall, harness_errors, known_hits, ne
         "components": COMPONENTS,
         "exhaustive": False,
     }
+    if prop == "C20":
+        cov["base_ocps"] = n
+        cov["exhaustive_per_base"] = True
+        cov["distinct_case_keys_are"] = "fault kind | position | method | timing | trigger"
+        cov["fault_kinds"] = sorted(set(k.split("|")[0] for k in case_keys))
     return cov
 
 
@@ -374,6 +401,8 @@ COMPONENTS = {
 }
 
 RULES = {
+    "C12": "one seed -> swarm config (templates, direct stages, clones, parent variable) -> seeded interleaving of template / clone / sibling / parent edits, queries and solves with solver faults; non-trivial = distinct sequence of (op kind, actor class) that contains at least one clone and reached the equality oracle of a check",
+    "C20": "one seed -> one well-posed base OCP; for it every (fault kind x position x method x timing x trigger) case is enumerated; evaluations = cases executed; distinct = distinct case keys whose control run reached the solver seam",
     "C13": "one seed -> swarm config -> well-posed base OCP(s) -> seeded history over the public API with solver faults; non-trivial = distinct op-kind sequence (with method classes) that contains a post-transcription edit/update or a fired fault AND reached the equality oracle of a check step",
     "C09": "as C13 with set_value-heavy weights, parameters of every kind, save/load restarts; non-trivial as C13",
     "C10": "as C13 with set_initial-heavy weights and the absolute starting-point oracle; non-trivial as C13",
